@@ -1,7 +1,22 @@
 #!/bin/bash
-# Build the harness from a private copy in which files still owned by builder agents are replaced by their committed version.
-AGENT_FILES="${AGENT_FILES:-c15 c16 c17 c18 c19 c20}"
+# Build the harness from a private copy; files that fail to compile (agents mid-edit) are replaced by their
+# stub (props/cXX.rs) or last committed version (anything else) and the build is retried.
+STUB=bc7c79d
 mkdir -p /verif/scratch/hw
 rsync -a --delete --exclude target /verif/harness/ /verif/scratch/hw/
-for f in $AGENT_FILES; do git -C /verif show bc7c79d:harness/src/props/$f.rs > /verif/scratch/hw/src/props/$f.rs; done
-cd /verif/scratch/hw && CARGO_NET_OFFLINE=true RUSTFLAGS="--cfg kahflane_turdb_verif" cargo build -q "$@" 2>&1 | grep -E "^error" -A14 | head -60
+cd /verif/scratch/hw
+for i in 1 2 3 4 5 6 7 8 9 10 11 12; do
+  OUT=$(CARGO_NET_OFFLINE=true RUSTFLAGS="--cfg kahflane_turdb_verif" cargo build -q "$@" 2>&1)
+  if ! echo "$OUT" | grep -q "^error"; then exit 0; fi
+  BAD=$(echo "$OUT" | grep -A6 "^error" | grep -oE "src/(props|sqlm)/[a-z0-9_]+\.rs" | sort -u | head -3)
+  if [ -z "$BAD" ]; then echo "$OUT" | grep -E "^error" -A14 | head -60; exit 1; fi
+  for f in $BAD; do
+    b=$(basename $f .rs)
+    if [[ "$f" == src/props/c[0-9][0-9].rs ]] && git -C /verif cat-file -e $STUB:harness/$f 2>/dev/null && [ ! -e /verif/scratch/hw/.stubbed_$b ]; then
+      git -C /verif show $STUB:harness/$f > $f; touch /verif/scratch/hw/.stubbed_$b; echo "mybuild: stubbed $f"
+    else
+      git -C /verif show HEAD:harness/$f > $f 2>/dev/null && echo "mybuild: reverted $f to HEAD" || { echo "$OUT" | grep -E "^error" -A14 | head -60; exit 1; }
+    fi
+  done
+done
+echo "mybuild: gave up"; exit 1
